@@ -157,7 +157,18 @@ def text_strategy(tier):
         st.text(max_size=5),
         st.text(st.characters(min_codepoint=32, max_codepoint=126), max_size=8),
     )
-    return st.lists(atoms, min_size=0, max_size=8).map(lambda xs: {"s": "".join(xs)})
+    short = st.lists(atoms, min_size=0, max_size=8).map(lambda xs: "".join(xs))
+    filler = st.sampled_from(["x\n", "12\n", "some words here\n", "1\n00:00:01,000 --> 00:00:02,000\ntext\n\n",
+                              "{1}{2}text\n", "\n"])
+
+    @st.composite
+    def long_doc(draw):
+        # the decisive marker may sit far from the top of a long document
+        head = draw(short)
+        unit = draw(filler)
+        n = draw(st.sampled_from([900, 1000, 1020, 1024, 1030, 1100, 2000, 4100])) // max(1, len(unit)) + 1
+        return head + unit * n + draw(short)
+    return st.one_of(short, short, short, long_doc()).map(lambda s: {"s": s})
 
 
 # ------------------------------------------------------------ own output
